@@ -45,6 +45,8 @@ type e2eReq struct {
 	Parallel bool     `json:"parallel,omitempty"` // part of a burst issued all at once
 	At       string   `json:"t"`
 	Dress    string   `json:"dress,omitempty"` // method/headers the request wears (lab.Dresses); the limiter takes no notice of them
+	Wants    string   `json:"wants,omitempty"` // representation preferences the request states (negotiations in gen.go); the limiter takes no notice of them
+	neg      int
 	at       time.Duration
 	rid      string
 	k        int
@@ -85,10 +87,12 @@ func TestC09EndToEnd(t *testing.T) {
 		"oracle per request: answered 429 => handed to no backend, otherwise to exactly one (none only for the balancer's own 503 when passive checks ejected every backend); "+
 		"per attributed address (reference re-statement of 'first X-Forwarded-For element trimmed, else X-Real-IP, else RemoteAddr host') TWO histories: the requests not answered 429 (B1/B2/B3, whatever the backend then did) and the requests that reached a backend (B1); "+
 		"requests with an empty first X-Forwarded-For element (rule silent on the address) are checked per request and, per identical header value from one peer host, against the upper bound B1 (one client under every reading); "+
+		"on top of the dress, representation preferences (Accept in 20 shapes: JSON / axios / mixed case / q-values / two field lines / XML / HTML / browser / */* / empty / malformed, Accept-Language/-Charset/-Encoding, User-Agent, X-Requested-With, Prefer) stated by none / per client identity / per request, on admitted and refused requests alike - the oracles take no notice of them; "+
 		"non-trivial = some identity was refused and admitted again after an advance AND was presented in at least two different ways")
 	sub.NontrivialFloor(0.30)
 	sub.Floor("multi-identity", 0.40)
 	sub.Floor("refused-after-failed-exchange", 0.10)
+	sub.Floor("not-forwarded-request-stated-preferences", 0.25)
 	lab.Assume("L1: a scripted http.RoundTripper stands in for http.Transport (transport errors after the request was handed over are the error values http.Transport reports: ECONNRESET read error, EOF, response-header timeout, context deadline); limiter on + active health checks on is not hosted in L1 (the balancer is built outside the bubble)")
 	lab.Assume("C09: a client address is the string the documented rule yields (X-Forwarded-For first element trimmed > X-Real-IP > RemoteAddr host); textual variants of one IP are different addresses")
 	lab.Assume("C09: 'admitted' is read off the client's side: a request is admitted iff it is not answered 429 (the circuit breaker, whose half-open refusal is also a 429, stays off)")
@@ -101,6 +105,7 @@ func TestC09EndToEnd(t *testing.T) {
 		dress := lab.DrawDressPlan(rt)
 		nb := rapid.IntRange(1, 3).Draw(rt, "backends")
 		ni := rapid.IntRange(1, 4).Draw(rt, "identities")
+		neg := drawNegotiationPlan(rt, ni)
 		ids := make([]identity, 0, ni)
 		seen := map[string]bool{proxyHost: true}
 		for len(ids) < ni {
@@ -158,6 +163,7 @@ func TestC09EndToEnd(t *testing.T) {
 		ambiguous, uniq, rid := 0, 0, 0
 		ambAdmitted := map[int][]time.Duration{} // by ambiguous X-Forwarded-For value (+1): instants of requests not answered 429
 		parallelBursts := 0
+		wantsSeen, wantsRefused := map[string]bool{}, false // representation preferences stated; some request stating any was handed to no backend
 		rapid.SyncTest(rt, func(rt *rapid.T) {
 			start := time.Now()
 			refused := false
@@ -263,6 +269,9 @@ func TestC09EndToEnd(t *testing.T) {
 					if d := dress.At(rid); d.Name != "plain-get" {
 						r.Dress = d.Name
 					}
+					if r.neg = neg.draw(rt, id); r.neg > 0 {
+						r.Wants = negotiations[r.neg-1].Name
+					}
 					batch = append(batch, r)
 				}
 				run := func(r *e2eReq) {
@@ -273,6 +282,7 @@ func TestC09EndToEnd(t *testing.T) {
 					if r.XRI != "" {
 						req.Header.Set("X-Real-IP", r.XRI)
 					}
+					applyNegotiation(req.Header, r.neg)
 					req.Header.Set(ridHeader, r.rid)
 					r.at = time.Since(start) // the limiter decides when the request arrives
 					r.At = r.at.String()
@@ -301,6 +311,12 @@ func TestC09EndToEnd(t *testing.T) {
 					if r.Backend != "" {
 						kindsSeen[r.Backend] = true
 					}
+					if r.neg > 0 {
+						wantsSeen[r.Wants] = true
+						if r.Fwd == 0 {
+							wantsRefused = true
+						}
+					}
 					if viol != "" {
 						continue
 					}
@@ -310,7 +326,7 @@ func TestC09EndToEnd(t *testing.T) {
 					case r.Status != 429 && r.Fwd > 1:
 						viol = fmt.Sprintf("request %s answered %d (not 429) reached a backend %d times, expected exactly once", r.rid, r.Status, r.Fwd)
 					case r.Status != 429 && r.Fwd == 0 && !(passive && r.Status == 503):
-						viol = fmt.Sprintf("request %s answered %d (not 429) reached no backend, expected exactly one", r.rid, r.Status)
+						viol = fmt.Sprintf("request %s (dress %q, stated preferences %q) answered %d (not 429) reached no backend: an excess request must be answered 429, an admitted one is handed to exactly one backend", r.rid, r.Dress, r.Wants, r.Status)
 					}
 					if id < 0 {
 						ambiguous++
@@ -359,6 +375,12 @@ func TestC09EndToEnd(t *testing.T) {
 		if refusedAfterFail {
 			labels = append(labels, "refused-after-failed-exchange")
 		}
+		if wantsRefused {
+			labels = append(labels, "not-forwarded-request-stated-preferences")
+		}
+		for _, w := range keysOf(wantsSeen) {
+			labels = append(labels, "wants-"+w)
+		}
 		for _, k := range keysOf(kindsSeen) {
 			labels = append(labels, "backend-"+k)
 		}
@@ -398,9 +420,9 @@ func TestC09EndToEnd(t *testing.T) {
 		if idle {
 			labels = append(labels, "idle-clause-exercised")
 		}
-		sub.Case(map[string]any{"p": p, "strategy": strategy, "backends": setup, "handler_timeout_s": handlerS, "passive": passive, "identities": ids, "events": evs, "dress": dress}, nt, append(labels, dress.Label())...)
+		sub.Case(map[string]any{"p": p, "strategy": strategy, "backends": setup, "handler_timeout_s": handlerS, "passive": passive, "identities": ids, "events": evs, "dress": dress, "negotiation": neg}, nt, append(labels, dress.Label(), neg.Label())...)
 		if viol != "" {
-			rt.Fatalf("max_tokens=%d refill=%v handler_timeout=%ds passive=%v strategy=%s backends=%v identities=%+v\nevents=%s\n%s", p.Max, p.R, handlerS, passive, strategy, setup, ids, showEvents(evs), viol)
+			rt.Fatalf("%s\nmax_tokens=%d refill=%v handler_timeout=%ds passive=%v strategy=%s backends=%v identities=%+v\nevents=%s", viol, p.Max, p.R, handlerS, passive, strategy, setup, ids, showEvents(evs))
 		}
 	})
 }
